@@ -186,20 +186,21 @@ class Impl:
         return self.sr.recognize_guid(q, CULTURE)
 
 
-def check_ip_results(ctx, q, rs, expect=None, family=''):
+def check_ip_results(ctx, q, rs, expect=None, family='', culture=CULTURE):
     """Soundness on everything reported; completeness + exact span when `expect` = (start, end_exclusive, address)."""
     for r in rs:
         txt = r.text
         val = r.resolution.get('value')
         addr = ip_value(txt)
-        fi = {'op': 'recognize_ip_address', 'query': q, 'culture': CULTURE, 'reported': fmt_model_results(rs)}
+        pre = '' if culture == CULTURE else 'zh-'
+        fi = {'op': 'recognize_ip_address', 'query': q, 'culture': culture, 'reported': fmt_model_results(rs)}
         if q[r.start:r.end + 1] != txt:
-            ctx.report('property', 'ip-span-text', 'recognize_ip_address(%r): text %r is not the query slice [%d,%d]' % (
+            ctx.report('property', pre + 'ip-span-text', 'recognize_ip_address(%r): text %r is not the query slice [%d,%d]' % (
                 q, txt, r.start, r.end), failing_input=fi, property_fails=True)
         if addr is None:
             nonascii = any(ord(c) > 127 and c.isdigit() for c in txt)
             sig = ('ipv4-unicode-digit' if '.' in txt else 'ipv6-unicode-digit') if nonascii else 'ip-unsound'
-            ctx.report('property', sig, 'recognize_ip_address(%r) reports %r, which is not a valid IP address' % (q, txt),
+            ctx.report('property', pre + sig, 'recognize_ip_address(%r, %r) reports %r, which is not a valid IP address' % (q, culture, txt),
                        failing_input=fi, property_fails=True)
             continue
         try:
@@ -207,16 +208,16 @@ def check_ip_results(ctx, q, rs, expect=None, family=''):
         except ValueError:
             vaddr = None
         if vaddr != addr:
-            ctx.report('property', 'ip-value', 'recognize_ip_address(%r): text %r denotes %s but resolved value %r denotes %s'
+            ctx.report('property', pre + 'ip-value', 'recognize_ip_address(%r): text %r denotes %s but resolved value %r denotes %s'
                        % (q, txt, addr, val, vaddr), failing_input=fi, property_fails=True)
     if expect is not None:
         a, b, addr = expect
         hit = [r for r in rs if r.start == a and r.end == b - 1]
         if not hit:
-            ctx.report('property', 'ip-incomplete' + family,
+            ctx.report('property', ('' if culture == CULTURE else 'zh-') + 'ip-incomplete' + family,
                        'recognize_ip_address(%r): the delimited valid address %r at [%d,%d) is not reported with its exact span '
                        '(reported: %s)' % (q, q[a:b], a, b, [(r.start, r.end, r.text) for r in rs]),
-                       failing_input={'op': 'recognize_ip_address', 'query': q, 'culture': CULTURE, 'expected_span': [a, b],
+                       failing_input={'op': 'recognize_ip_address', 'query': q, 'culture': culture, 'expected_span': [a, b],
                                       'reported': fmt_model_results(rs)}, property_fails=True)
 
 
@@ -370,6 +371,42 @@ def pipeline_ip(ctx, impl):
     return near
 
 
+
+ZH_CARRIERS = ['{}', '我电脑IP是{}', '地址 {} 。', '({})', 'IP是{}，好', ' {} ']
+ZH_V6_CARRIERS = ['{}', '我电脑IP是{} ', '地址 {} 。', '({})']
+ZH_PROBES = ['1.2.3.٤', '我电脑IP是1.2.3.٤', '1.2.3.４', '١.٢.٣.٤', '::٤', '我::1', '1::我', '256.1.1.1', '我电脑IP是1.1.1.256',
+             '我电脑IP是1.2.3.4.5', '错误的IPV6地址JKLN:ssej::1', 'K1.2.3.4', '1.2.3.4K']
+
+
+def pipeline_ip_zh(ctx, impl):
+    """the Chinese configuration (cultures zh-*, ja-*): its own IPv4 pattern and boundary rules (CJK neighbours count
+    as delimiters for IPv4)"""
+    r = ctx.rng('pipeline-ip-zh')
+    n = 0
+    for culture in ('zh-cn', 'ja-jp'):
+        rec = lambda q, c=culture: impl.sr.recognize_ip_address(q, c)
+        quads = [tuple(r.choice(BOUNDARY) for _ in range(4)) for _ in range(1500 if ctx.thorough else 300)]
+        for k, quad in enumerate(quads):
+            t = v4_text(quad, r, zeros=(k % 4 == 0))
+            q = ZH_CARRIERS[k % len(ZH_CARRIERS)].format(t)
+            a = q.index(t)
+            rs = rec(q)
+            check_ip_results(ctx, q, rs, (a, a + len(t), ipaddress.IPv4Address(bytes(quad))), '-v4', culture)
+            n += 1
+            if rs:
+                ctx.nontriv(('ipzh', culture, q))
+        for k, (t, kind) in enumerate(v6_systematic(r, reps=1)):
+            q = ZH_V6_CARRIERS[k % len(ZH_V6_CARRIERS)].format(t)
+            a = q.index(t)
+            rs = rec(q)
+            check_ip_results(ctx, q, rs, (a, a + len(t), v6_value(t)) if kind == 'valid' else None, '-v6', culture)
+            n += 1
+        for q in ZH_PROBES:
+            check_ip_results(ctx, q, rec(q), None, '', culture)
+            n += 1
+    ctx.count('pipeline-ip-zh', n)
+
+
 def pipeline_guid(ctx, impl):
     r = ctx.rng('pipeline-guid')
     m = 10000 if ctx.thorough else 1500
@@ -489,6 +526,7 @@ def correspond(ctx):
     recorr.run(ctx)
     # pipeline (also yields the strings for the unit level)
     near = pipeline_ip(ctx, impl)
+    pipeline_ip_zh(ctx, impl)
     guid_texts, guid_near = pipeline_guid(ctx, impl)
     pipeline_others(ctx, impl)
     # unit level
